@@ -344,14 +344,21 @@ def run_selftests(P, tier, seed, work):
         n = st["n"][0 if tier == "quick" else 1]
         args = [sys.executable, os.path.join(ROOT, "tools", "histgen.py")] + st["args"] + [str(n), str(seed * 100003)]
         g = subprocess.run(args, stdout=subprocess.PIPE, text=True, timeout=600)
-        p = subprocess.run([drv], input=g.stdout, stdout=subprocess.PIPE, text=True, timeout=3000)
+        # deep stack as for the streams (extracted list functions are not tail recursive)
+        p = subprocess.run([drv], input=g.stdout, stdout=subprocess.PIPE, text=True, timeout=3000, preexec_fn=big_stack)
         lines = {l.split("\t")[0]: l.rstrip("\n").split("\t")[1] for l in g.stdout.splitlines() if "\t" in l}
-        bad, steps = [], 0
+        bad, steps, seen = [], 0, set()
         for l in p.stdout.splitlines():
             i, o = l.split("\t", 1)
             steps += len(o)
+            seen.add(i)
             if not o or set(o) - {"1"}:
                 bad.append({"id": i, "input": lines.get(i, ""), "model": o})
+        # a history the driver did not answer (it died) counts as failing
+        for i in lines:
+            if i not in seen:
+                bad.append({"id": i, "input": lines[i], "model": "(no answer: the model driver exited with %s)" % p.returncode})
+                break
         out.append({"name": st["name"], "histories": len(lines), "steps": steps, "failing": bad[:3], "n_failing": len(bad)})
     return out
 
